@@ -83,7 +83,7 @@ theorem createCommit_refines (env : Env) (fail : List String) (w : World) (c : C
     Ref env fail c (.create id r) (createCommit Variant.fixed env fail w id t templated) := by
   intro hdev
   rw [createCommit_resp_eq _ env fail w id t templated hn] at hdev ⊢
-  rw [createCommit_view _ env fail w id t templated hn]
+  rw [createCommit_view _ env fail w id t templated hn (View.EI.not_exec hinv hn)]
   simp only [Variant.fixed, Bool.not_false, Bool.and_true]
   -- the start cannot have failed (recorded deviation excluded)
   have hstart : t.enabled = true → startOK env fail id t = true := by
@@ -386,14 +386,19 @@ theorem updateValidate_ok {env : Env} {orig : Task} {r : TaskReq} {script m : St
     | (cases h; done)
     | (injection h with h; exact h.symm)
 
-theorem restartRenamed_view (env : Env) (fail : List String) (W : World) (id newId : String) (orig upd : Task) :
+theorem restartRenamed_view (env : Env) (fail : List String) (W : World) (id newId : String) (orig upd : Task)
+    (hidle : id ≠ newId → orig.enabled = true → upd.enabled = true → W.exec newId = false) :
     (restartRenamed env fail W id newId orig upd).1.view =
       if id ≠ newId ∧ orig.enabled = true ∧ upd.enabled = true then
         (if startOK env fail newId upd = true then (W.view.setExec id false).setExec newId true else W.view.setExec id false)
       else W.view := by
   unfold restartRenamed
   split
-  · simp only [note_view, startTask_view, stopTask_view]
+  · rename_i hc
+    have hi : (stopTask W id).exec newId = false := by
+      have hne : newId ≠ id := fun e => hc.1 e.symm
+      simp [stopTask, World.setExec, hne, hidle hc.1 hc.2.1 hc.2.2]
+    simp only [note_view, startTask_view_idle _ _ _ _ _ hi, stopTask_view]
   · rfl
 
 theorem restartRenamed_ok (env : Env) (fail : List String) (W : World) (id newId : String) (orig upd : Task) :
@@ -404,7 +409,8 @@ theorem restartRenamed_ok (env : Env) (fail : List String) (W : World) (id newId
   · simp only [startTask_ok]
   · rfl
 
-theorem applyStatus_view (env : Env) (fail : List String) (W : World) (id newId : String) (orig upd : Task) :
+theorem applyStatus_view (env : Env) (fail : List String) (W : World) (id newId : String) (orig upd : Task)
+    (hidle : orig.enabled = false → upd.enabled = true → W.exec newId = false) :
     (applyStatus env fail W id newId orig upd).1.view =
       if (orig.enabled != upd.enabled) = true then
         (if upd.enabled = true then (if startOK env fail newId upd = true then W.view.setExec newId true else W.view)
@@ -413,9 +419,11 @@ theorem applyStatus_view (env : Env) (fail : List String) (W : World) (id newId 
   unfold applyStatus
   split
   · split
-    · split
-      · rename_i hs; rw [startTask_ok] at hs; simp only [note_view, startTask_view, hs, if_true]
-      · rename_i hs; rw [startTask_ok] at hs; simp only [note_view, startTask_view, hs]
+    · rename_i hch hue
+      have hi : W.exec newId = false := hidle (by cases hoe : orig.enabled <;> simp_all) hue
+      split
+      · rename_i hs; rw [startTask_ok] at hs; simp only [note_view, startTask_view_idle _ _ _ _ _ hi, hs, if_true]
+      · rename_i hs; rw [startTask_ok] at hs; simp only [note_view, startTask_view_idle _ _ _ _ _ hi, hs]
     · simp only [note_view, stopTask_view]
   · simp only [note_view]
 
